@@ -35,6 +35,8 @@ SIMPLE_DECODERS = [
     "multidecoder.decoders.network.find_emails",
     "multidecoder.decoders.network.find_ips",
     "multidecoder.decoders.network.is_url",
+    "multidecoder.decoders.network.parse_ip",
+    "multidecoder.decoders.network.parse_ipv6",
     "multidecoder.decoders.network.parse_authority",
     "multidecoder.decoders.network.normalize_path",
     "multidecoder.decoders.network.parse_url",
@@ -47,7 +49,7 @@ SHELL_FUNCS = ["multidecoder.decoders.shell.strip_carets", "multidecoder.decoder
 
 NOT_UNDER_CONTRACT = (
     "every decoder the default registry ships is under a deductive contract (DecoderOK); ASSUMED contracts of library code they sit on: pefile (pe_size), xortool, "
-    "ipaddress / socket (parse_ip, parse_ipv6, is_ip), re.sub with a callback (normalize_percent_encoding), ntpath (normpath, splitext: opaque, so the list indexes of "
+    "ipaddress / socket (is_ip assumed; parse_ip / parse_ipv6 verified against uninterpreted models of inet_aton / inet_pton / IPv4Address / IPv6Address), re.sub with a callback (normalize_percent_encoding), ntpath (normpath, splitext: opaque, so the list indexes of "
     "find_windows_path into the normalised path are demoted to the run-time stand-in), str.isprintable (_is_printable), struct.unpack_from, urlsplit"
 )
 
